@@ -22,11 +22,13 @@ pub enum Case {
 fn check_htyp(h: u8) -> CheckResult {
     // the byte must decode the same way whatever the ECU field holds, with or without a storage header, and under any
     // filter configuration that keeps the message
-    let fillings: [(&[u8; 4], &str, bool); 4] = [
+    let fillings: [(&[u8; 4], &str, bool); 5] = [
         (b"EC\0\0", "EC", true),
         (b"\0\0\0\0", "", true),
         (b"ECU1", "ECU1", true),
         (b"\xffAB\0", "", false),
+        // the ECU field holds the same four bytes as the session id field of these messages
+        (b"\x01\x02\x03\x04", "\u{1}\u{2}\u{3}\u{4}", true),
     ];
     for (ecu_bytes, ecu_text, canonical) in fillings {
         for storage in [false, true] {
@@ -208,7 +210,8 @@ fn check_msin_in_message(b: u8) -> Result<(), Violation> {
     // payloads the kind admits: verbose -> no arguments; control -> service byte (equal to / different from the MTIN
     // nibble, above 15) + data; other non-verbose -> message id + data
     let payloads: Vec<Vec<u8>> = if b & 1 != 0 {
-        vec![vec![]]
+        // (verbose: no arguments; also no arguments but left-over payload bytes, which a parser may refuse)
+        vec![vec![], vec![0x03, 1, 2]]
     } else if mstp == 3 {
         vec![vec![b >> 4, 9, 8], vec![0x03, 1], vec![0x13], vec![0x11, 7, 7, 7], vec![0xff, 0]]
     } else {
@@ -223,6 +226,7 @@ fn check_msin_in_message(b: u8) -> Result<(), Violation> {
         let parsed = guard(|| dlt_message(&bytes, None, false).map(|(r, pm)| (r.len(), pm))).map_err(|p| Violation::from_panic(&format!("dlt_message on {}", hex_short(&bytes)), &p))?;
         let m = match parsed {
             Ok((0, ParsedMessage::Item(m))) => m,
+            _ if b & 1 != 0 && !payload.is_empty() => continue,
             other => return Err(viol!("msin:message:parse", "message with MSIN {:#04x} ({}) did not parse: {}", b, hex_short(&bytes), short_dbg(&other))),
         };
         let Some(ext) = m.extended_header.clone() else {
